@@ -339,6 +339,21 @@ func stlGenRow(r *fw.Rand, dsc string, enumerate []byte) (tf []byte, runs []stlR
 			st.DH = true
 			cur.Style = st
 		}
+		if r.P(1, 4) {
+			// italics, underline or boxing switched on ahead of the box: in force for the text inside it
+			switch r.Intn(3) {
+			case 0:
+				tf = append(tf, 0x80)
+				st.Italic = true
+			case 1:
+				tf = append(tf, 0x82)
+				st.Underline = true
+			default:
+				tf = append(tf, 0x84)
+				st.Boxing = true
+			}
+			cur.Style = st
+		}
 		tf = append(tf, 0x0b)
 		if r.Bool() {
 			tf = append(tf, 0x0b)
